@@ -154,9 +154,7 @@ Proof. vm_compute. repeat split. Qed.
 
 Example m0_inv : Inv (fst m0).
 Proof.
-  assert (E : m0 = (fst m0, Ret tt)) by (vm_compute; reflexivity).
-  unfold m0 at 1 in E. unfold np_init_model in E.
-  eapply inv_init_model; [|exact E]. discriminate.
+  apply (inv_init_model_fst np_pycast np_arrcast np_infer np_astype_dt); [discriminate | vm_compute; reflexivity].
 Qed.
 
 Example strict_init_rejects_unlisted :
